@@ -1,4 +1,7 @@
+#[cfg(not(mainline_verif))]
 use std::collections::HashMap;
+#[cfg(mainline_verif)]
+use std::collections::BTreeMap as HashMap;
 use std::net::SocketAddrV4;
 use std::num::NonZeroUsize;
 #[cfg(not(mainline_verif))]
